@@ -188,7 +188,10 @@ def run_obligation(name, tier="quick", seed=0, do_diff=True):
                 if not cover_ok.get(vc.clause):
                     cover_ok[vc.clause] = "unknown"
         rec["covers"] = sum(1 for v in cover_ok.values() if v)
-        vacuous = [c for c, v in cover_ok.items() if v is False]
+        # the generated clause `no-unexpected-exception` exists only on paths that raise; when every such path turns
+        # out to be infeasible (kept only because the feasibility check at exploration time gave up) that is the
+        # desired outcome, not a vacuous contract
+        vacuous = [c for c, v in cover_ok.items() if v is False and c != "no-unexpected-exception"]
         rec["phase_s"]["covers"] = round(time.time() - tph, 2)
         tph = time.time()
         # discharge
